@@ -254,6 +254,9 @@ func (c *trCtx) exprAs(e ast.Expr, ty types.Type) string {
 		if r, ok := c.perfNil(e, ty); ok {
 			return r
 		}
+		if r, ok := c.createNil(e, ty); ok {
+			return r // nil for a *T result of a Create function (trans_units_create.go)
+		}
 		if r, ok := c.internedNil(e, ty); ok {
 			return r // nil where an interned pointer is expected: the zero value of the struct (trans_units_mapping.go)
 		}
@@ -317,6 +320,9 @@ func (c *trCtx) errorBox(e ast.Expr) (string, bool) {
 func (c *trCtx) expr(e ast.Expr) string {
 	if s, ok := c.synth[e]; ok {
 		return s
+	}
+	if s, ok := c.createExpr(e); ok {
+		return s // addresses of syntax nodes, slices of a sum-type interface (trans_units_create.go)
 	}
 	// constants fold (except names of constants, which keep their name)
 	if tv, ok := c.info().Types[e]; ok && tv.Value != nil {
@@ -463,11 +469,11 @@ func (c *trCtx) externalCall(fobj *types.Func, x *ast.CallExpr) (string, bool) {
 	if _, ok := trPinned[fobj.Origin().FullName()]; ok {
 		return "", false
 	}
-	if c.t.funcs[fobj.Origin()] != nil {
-		return "", false
+	if tf := c.t.funcs[fobj.Origin()]; tf != nil && (c.createMode() || !trCreateUnitSet[tf.unit]) {
+		return "", false // (the functions of the Create units are translated for those units only: trans_units_create.go)
 	}
-	if c.inCallback {
-		return c.externalFn(fobj, x), true
+	if c.inCallback || c.createMode() {
+		return c.externalFn(fobj, x), true // (in the Create units the registry calls stand inside loops: trans_units_create.go)
 	}
 	if c.loop != nil || c.inLambda > 0 {
 		trFail(x.Pos(), "call of %s, which is not translated, inside a loop is outside the subset (outside loops its result would be a parameter)", full)
@@ -694,6 +700,9 @@ func (c *trCtx) selector(x *ast.SelectorExpr) string {
 	if sel, ok := c.info().Selections[x]; ok {
 		switch sel.Kind() {
 		case types.FieldVal:
+			if r, ok := c.createSelector(x, sel); ok {
+				return r // a field of a syntax node (trans_units_create.go)
+			}
 			if len(sel.Index()) != 1 {
 				trFail(x.Pos(), "selection of the promoted field %s is outside the subset", x.Sel.Name)
 			}
@@ -911,6 +920,9 @@ func (c *trCtx) call(x *ast.CallExpr) string {
 	}
 	if r, ok := c.perfGetExpr(x); ok {
 		return r
+	}
+	if r, ok := c.createCall(x); ok {
+		return r // methods of syntax nodes, calls that pass the registry or a node (trans_units_create.go)
 	}
 	if fo := c.calledFunc(x); fo != nil {
 		if r, ok := c.externalCall(fo, x); ok {
